@@ -714,7 +714,8 @@ def rule_chunk_cover(repo: Repo, rep: Report, classes: List[ClassInfo]) -> int:
             if not sliced:
                 continue
             n += 1
-            ftxt = unparse(fi.node)
+            # a `% size` test anywhere in the module counts: the length may be validated by the caller of a helper
+            ftxt = unparse(fi.module.tree) if getattr(fi, "module", None) is not None else unparse(fi.node)
             ceil_ = f"+ {size} - 1" in total or f"{size} - 1 +" in total or total.startswith("-(") or "ceil" in unparse(lp.iter)
             guarded = f"% {size}" in ftxt
             if ceil_ or guarded:
@@ -732,8 +733,8 @@ def rule_chunk_cover(repo: Repo, rep: Report, classes: List[ClassInfo]) -> int:
                     n += 1
                     size = unparse(b_)
                     total = unparse(q_.left)
-                    ftxt = unparse(fi.node)
-                    if f"% {size}" in ftxt or f"{unparse(sl.upper)}:" in ftxt:
+                    ftxt = unparse(fi.module.tree) if getattr(fi, "module", None) is not None else unparse(fi.node)
+                    if f"% {size}" in ftxt or f"{unparse(sl.upper)}:" in unparse(fi.node):
                         rep.ok("CHUNK-COVER", fi, f"{owner}.{fi.name}: [: {unparse(sl.upper)}]", "the remainder is handled (a `%` test or a slice that starts where this one ends)", node=sl, nontrivial=False)
                     else:
                         rep.violation("CHUNK-COVER", fi, f"{owner}.{fi.name}: [: {unparse(sl.upper)}]", f"only the first floor({total} / {size}) * {size} elements are processed and nothing handles the remaining {total} mod {size}: the result ignores the tail of the data (a sum / mean over it is too small), depending on the length", node=sl)
